@@ -249,7 +249,7 @@ def flat(req_form):
 
 def request_forms(n, nested=True):
     """all non-empty subsets as flat lists, every single key as a scalar, a few nestings"""
-    out = []
+    out = [[], [[]]]  # the empty request and an empty nesting: nothing is needed, nothing may run
     for r in range(1, n + 1):
         for sub in itertools.combinations(range(n), r):
             out.append(list(sub))
